@@ -218,3 +218,33 @@ macro_rules! deque_slice_driver {
 deque_slice_driver!(bounded_slice_driver_vecdeque_len0, 0);
 deque_slice_driver!(bounded_slice_driver_vecdeque_len1, 1);
 deque_slice_driver!(bounded_slice_driver_vecdeque_len3, 3);
+
+// ---- C07 / C10, bounded: the same call delivers the same values whether the result is returned as a Vec, returned as a VecDeque, or
+// written into a caller-supplied uninitialised buffer (which is then completely initialised)
+macro_rules! output_paths {
+    ($name:ident, $n:literal) => {
+        #[kani::proof]
+        #[kani::unwind(7)]
+        fn $name() {
+            let a: [i32; $n] = [0i32; $n].map(|_| kani::any());
+            let v: Vec<i32> = a.to_vec();
+            let w: usize = kani::any();
+            kani::assume(1 <= w && w <= $n + 1);
+            let r_vec: Vec<i64> = v.rolling_apply(w, |rm, x| x as i64 * 3 - rm.unwrap_or(0) as i64, None).unwrap();
+            let r_deq: VecDeque<i64> = v.rolling_apply(w, |rm, x| x as i64 * 3 - rm.unwrap_or(0) as i64, None).unwrap();
+            let mut buf = <Vec<i64> as Vec1<i64>>::uninit($n);
+            let none: Option<Vec<i64>> = v.rolling_apply(w, |rm, x| x as i64 * 3 - rm.unwrap_or(0) as i64, Some(<Vec<i64> as Vec1<i64>>::uninit_ref_mut(&mut buf)));
+            assert!(none.is_none());
+            let r_buf: Vec<i64> = unsafe { buf.assume_init() };
+            assert!(r_vec.len() == $n && r_deq.len() == $n && r_buf.len() == $n);
+            let mut i = 0;
+            while i < $n {
+                let free = w > $n && i + 1 == $n;
+                if !free { assert!(r_vec[i] == r_deq[i] && r_vec[i] == r_buf[i]); }
+                i += 1;
+            }
+        }
+    };
+}
+output_paths!(bounded_output_paths_len1, 1);
+output_paths!(bounded_output_paths_len3, 3);
